@@ -5,3 +5,13 @@ open Rtsp.Life.C13
 #print axioms close_returned_after_all_closed
 #print axioms no_callback_after_close
 #print axioms accepts_prefix_closed
+#print axioms invariants_reachable
+#print axioms wg_zero_iff_all_done
+#print axioms model_traces_accepted
+#print axioms model_ordered
+#print axioms close_terminates
+#print axioms close_terminates_own_paths
+#print axioms close_terminates_fair
+#print axioms shutdown_steps_persist
+#print axioms client_traces_accepted
+#print axioms client_close_terminates
